@@ -349,7 +349,7 @@ func verifTimerQueries(t *testing.T, rng *rand.Rand) {
 			// a base instant: an interesting (or random) day at an interesting (or random) time
 			var day int64
 			if rng.Intn(4) == 0 {
-				day = int64(rng.Intn(940)) * 86400
+				day = int64(40+rng.Intn(900)) * 86400 // (not the first weeks of the spec calendar: spans anchored in December 2017)
 			} else {
 				day = days[rng.Intn(len(days))]
 			}
